@@ -307,6 +307,21 @@ Theorem C03_src_bwd_shift_keeps_invariant : forall cfg r t l e0 left rows' e,
               /\ LedgerProofs.ledger_ok (cap cfg) (balance cfg) (new ++ l).
 Proof. exact src_bwd_shift_keeps_invariant. Qed.
 
+(* ---- source-text tie for the recursive pass (gen/SrcPass.v: ForwardScheduler.__forward_pass / BackwardScheduler.__backward_pass translated from schedule.py on every run;
+   Sched/SrcPassEquivF.v / SrcPassEquivB.v relates it to the model's pass for every input, Sched/SrcPassProps.v transports the theorems):
+   what follows is about the TRANSLATED SOURCE called once per root as calc does ([src_roots_fold]) after calc's pre-checks. ---- *)
+From PJ Require Import gen.SrcPass Sched.SrcPassRel Sched.SrcPassEquivF Sched.SrcPassEquivB Sched.SrcPassProps.
+
+Theorem C03_src_forward_pass : forall cfg w ds l cl, isolated_ok w = true -> no_future_ends w (now cfg) = true ->
+  src_roots_fold src_fwd_pass cfg w (roots w) = Ok (ds, l, cl) ->
+  cap_nonneg cfg -> no_overallocation cfg w l.
+Proof. exact src_fwd_no_overallocation. Qed.
+
+Theorem C03_src_backward_pass : forall cfg w ds l cl, isolated_ok w = true ->
+  src_roots_fold src_bwd_pass cfg w (rev (roots w)) = Ok (ds, l, cl) ->
+  cap_nonneg cfg -> no_overallocation cfg w l.
+Proof. exact src_bwd_no_overallocation. Qed.
+
 Print Assumptions C03_forward.
 Print Assumptions C03_backward.
 Print Assumptions C03_oracle_meaning.
@@ -344,3 +359,5 @@ Print Assumptions C03_src_fwd_shift.
 Print Assumptions C03_src_bwd_shift.
 Print Assumptions C03_src_fwd_shift_keeps_invariant.
 Print Assumptions C03_src_bwd_shift_keeps_invariant.
+Print Assumptions C03_src_forward_pass.
+Print Assumptions C03_src_backward_pass.
